@@ -1,7 +1,10 @@
-(* First-moment accumulation of model/PhaseType.v ([accumulate_raw] with
-   k = 1 at [OpsR], sound backend): it denotes the Van Loan functional
-   [m1] of proofs/ExpLaws.v with the real matrix exponential, independently
-   of the regularisation factor lam <> 0; lumping at the level of the model. *)
+(* Moment accumulation of model/PhaseType.v ([accumulate_raw] at [OpsR],
+   sound backend).  First for k = 1: it denotes the Van Loan functional [m1]
+   of proofs/ExpLaws.v with the real matrix exponential, independently of the
+   regularisation factor lam <> 0; lumping at the level of the model.  Then
+   for arbitrary order k, epochs and times: the list [vanloan] denotes [vl],
+   the read-out denotes [vltr], the model computes k! times the Van Loan
+   functional [mk] of the un-regularised generators, and is lumpable. *)
 Require Import Reals Psatz QArith Qreals Lqa.
 From mathcomp Require Import all_ssreflect all_algebra.
 From PG Require Import analysis.Rstruct analysis.RSums analysis.MExp analysis.MExpLaws.
@@ -213,10 +216,521 @@ Qed.
 
 End Moments.
 
+(* ------------------------------------------------------------------ *)
+(* General order k                                                     *)
+
+Lemma vlszE n k : vlsz n k = (k.+1 * n)%N.
+Proof. by elim: k => [|k IH] /=; rewrite ?mul1n // IH -mulSn. Qed.
+
+Definition vl_blk n (Sg : seq (seq R)) (Rs : seq (seq R)) (i j : nat) :
+    seq (seq R) :=
+  if i == j then Sg
+  else if i.+1 == j then diagm OpsR (nth [::] Rs i) else mzero OpsR n n.
+
+Definition vl_grid n Sg Rs k : seq (seq (seq (seq R))) :=
+  [seq [seq vl_blk n Sg Rs i j | j <- iota 0 k.+1] | i <- iota 0 k.+1].
+
+Lemma vanloanE Sg Rs k :
+  vanloan OpsR Sg Rs k = block_grid (vl_grid (size Sg) Sg Rs k).
+Proof.
+rewrite /vanloan /vl_grid L_map L_seq -[Nat.add k 1]/(k + 1)%N addn1.
+congr (block_grid _); apply: eq_map => i; rewrite L_map; apply: eq_map => j.
+rewrite /vl_blk !L_eqb L_nth L_length -[Nat.add i 1]/(i + 1)%N addn1.
+by [].
+Qed.
+
+Definition rewards_wf n k (Rs : seq (seq R)) : Prop :=
+  forall i, (i < k)%N -> size (nth [::] Rs i) = n.
+
+Section VanLoanK.
+Variables (n k : nat) (Sg : seq (seq R)) (Rs : seq (seq R)).
+Hypothesis Swf : wf n n Sg.
+Hypothesis Rwf : rewards_wf n k Rs.
+
+Lemma vl_grid_size : size (vl_grid n Sg Rs k) = k.+1.
+Proof. by rewrite size_map size_iota. Qed.
+
+Lemma vl_grid_row bi : (bi < k.+1)%N ->
+  nth [::] (vl_grid n Sg Rs k) bi = [seq vl_blk n Sg Rs bi j | j <- iota 0 k.+1].
+Proof. by move=> biK; rewrite (nth_map 0%N) ?size_iota // nth_iota. Qed.
+
+Lemma vl_grid_blk bi bj : (bi < k.+1)%N -> (bj < k.+1)%N ->
+  nth [::] (nth [::] (vl_grid n Sg Rs k) bi) bj = vl_blk n Sg Rs bi bj.
+Proof.
+by move=> biK bjK; rewrite vl_grid_row // (nth_map 0%N) ?size_iota // nth_iota.
+Qed.
+
+Lemma vl_blk_wf bi bj : (bi < k.+1)%N -> (bj < k.+1)%N ->
+  wf n n (vl_blk n Sg Rs bi bj).
+Proof.
+move=> biK bjK; rewrite /vl_blk; case: ifP => // _; case: ifP => [/eqP E|_].
+  by apply: wf_diagm; apply: Rwf; rewrite -ltnS E.
+exact: wf_mzero.
+Qed.
+
+Lemma wf_vanloan : wf (vlsz n k) (vlsz n k) (vanloan OpsR Sg Rs k).
+Proof.
+rewrite vanloanE (wf_size Swf) vlszE.
+apply: wf_block_grid => //; first exact: vl_grid_size.
+  by move=> bi biK; rewrite vl_grid_row // size_map size_iota.
+by move=> bi bj biK bjK; rewrite vl_grid_blk //; apply: vl_blk_wf.
+Qed.
+
+Lemma ent_vanloan bi bj i j :
+  (bi < k.+1)%N -> (bj < k.+1)%N -> (i < n)%N -> (j < n)%N ->
+  ent (vanloan OpsR Sg Rs k) (bi * n + i) (bj * n + j)
+  = ent (vl_blk n Sg Rs bi bj) i j.
+Proof.
+move=> biK bjK iN jN; rewrite vanloanE (wf_size Swf).
+rewrite (@ent_block_grid k.+1 k.+1 n n) ?vl_grid_blk //.
+- exact: vl_grid_size.
+- by move=> b bK; rewrite vl_grid_row // size_map size_iota.
+- by move=> b b' bK b'K; rewrite vl_grid_blk //; apply: vl_blk_wf.
+Qed.
+
+Lemma ent_vl_blk bi bj i j : (bi < k.+1)%N -> (bj < k.+1)%N ->
+  (i < n)%N -> (j < n)%N ->
+  ent (vl_blk n Sg Rs bi bj) i j =
+  if bi == bj then ent Sg i j
+  else if bi.+1 == bj then (if i == j then nth 0 (nth [::] Rs bi) i else 0)
+  else 0.
+Proof.
+move=> biK bjK iN jN; rewrite /vl_blk; case: ifP => // _.
+case: ifP => [/eqP E|_]; last exact: ent_mzero.
+have sR : size (nth [::] Rs bi) = n by apply: Rwf; rewrite -ltnS E.
+by rewrite ent_diagm ?sR.
+Qed.
+
+Lemma ent_vanloan_xy x y : (x < k.+1 * n)%N -> (y < k.+1 * n)%N ->
+  ent (vanloan OpsR Sg Rs k) x y
+  = ent (vl_blk n Sg Rs (x %/ n) (y %/ n)) (x %% n) (y %% n).
+Proof.
+move=> xN yN; have n0 : (0 < n)%N by case: (n) xN => //; rewrite muln0.
+rewrite {1}(divn_eq x n) {1}(divn_eq y n) ent_vanloan ?ltn_mod //.
+- by rewrite ltn_divLR.
+- by rewrite ltn_divLR.
+Qed.
+End VanLoanK.
+Arguments wf_vanloan {n k Sg Rs}.
+Arguments ent_vanloan {n k Sg Rs}.
+Arguments ent_vl_blk {n k Sg Rs}.
+Arguments ent_vanloan_xy {n k Sg Rs}.
+
+Lemma vl_ext n (S : 'M[R]_n) (f g : nat -> 'M[R]_n) k :
+  (forall i, (i < k)%N -> f i = g i) -> vl S f k = vl S g k.
+Proof.
+elim: k f g => [|k IH] f g fg //=.
+rewrite (fg 0%N) // (IH (fun i => f i.+1) (fun i => g i.+1)) // => i ik.
+exact: fg.
+Qed.
+
+Lemma vltop_diag_ent n (d : 'rV[R]_n) k (i : 'I_n) (y : 'I_(vlsz n k)) :
+  vltop (diag_mx d) k i y = if (i == y :> nat) then d ord0 i else 0.
+Proof.
+case: k y => [|k] y /=.
+  by rewrite mxE -val_eqE /=; case: (_ == _)%B; rewrite ?mulr1n ?mulr0n.
+rewrite mxE; case: splitP => y' ->.
+  by rewrite mxE -val_eqE /=; case: (_ == _)%B; rewrite ?mulr1n ?mulr0n.
+by rewrite mxE ltn_eqF // (leq_trans (ltn_ord i)) // leq_addr.
+Qed.
+
+Definition rwd n (Rs : seq (seq R)) : nat -> 'M[R]_n :=
+  fun i => diag_mx (rv_of n (nth [::] Rs i)).
+
+Section VanLoanStep.
+Variables (n k : nat) (Sg : seq (seq R)) (Rs : seq (seq R)).
+Hypothesis Swf : wf n n Sg.
+Hypothesis Rwf : rewards_wf n k.+1 Rs.
+Let V := vanloan OpsR Sg Rs k.+1.
+
+Lemma rewards_wf_behead : rewards_wf n k (behead Rs).
+Proof. by move=> i ik; rewrite nth_behead; apply: Rwf. Qed.
+
+Lemma shift_lt x : (x < k.+1 * n)%N -> (n + x < k.+2 * n)%N.
+Proof. by move=> xN; rewrite [(k.+2 * n)%N]mulSn ltn_add2l. Qed.
+
+Lemma small_lt i : (i < n)%N -> (i < k.+2 * n)%N.
+Proof. by move=> iN; rewrite mulSn (leq_trans iN) // leq_addr. Qed.
+
+Lemma shift_div x : (0 < n)%N -> ((n + x) %/ n = (x %/ n).+1)%N.
+Proof. by move=> n0; rewrite divnDl ?dvdnn // divnn n0. Qed.
+
+Lemma van_ul i j : (i < n)%N -> (j < n)%N -> ent V i j = ent Sg i j.
+Proof.
+move=> iN jN; rewrite /V (ent_vanloan_xy Swf Rwf) ?small_lt //.
+by rewrite !divn_small // !modn_small.
+Qed.
+
+Lemma van_ur i y : (i < n)%N -> (y < k.+1 * n)%N ->
+  ent V i (n + y) = if i == y then nth 0 (nth [::] Rs 0) i else 0.
+Proof.
+move=> iN yN; have n0 : (0 < n)%N by apply: leq_ltn_trans iN.
+rewrite /V (ent_vanloan_xy Swf Rwf) ?shift_lt ?small_lt //.
+rewrite shift_div // modnDl divn_small // modn_small //.
+have yK : (y %/ n < k.+1)%N by rewrite ltn_divLR.
+rewrite (ent_vl_blk Rwf) ?ltn_mod //= eqSS.
+case: (ltnP y n) => yn; first by rewrite divn_small // modn_small.
+by rewrite !ltn_eqF ?divn_gt0 // (leq_trans iN yn).
+Qed.
+
+Lemma van_dl x j : (x < k.+1 * n)%N -> (j < n)%N -> ent V (n + x) j = 0.
+Proof.
+move=> xN jN; have n0 : (0 < n)%N by apply: leq_ltn_trans jN.
+rewrite /V (ent_vanloan_xy Swf Rwf) ?shift_lt ?small_lt //.
+rewrite shift_div // modnDl (@divn_small j n) // (@modn_small j n) //.
+have xK : (x %/ n < k.+1)%N by rewrite ltn_divLR.
+by rewrite (ent_vl_blk Rwf) ?ltn_mod.
+Qed.
+
+Lemma van_dr x y : (x < k.+1 * n)%N -> (y < k.+1 * n)%N ->
+  ent V (n + x) (n + y) = ent (vanloan OpsR Sg (behead Rs) k) x y.
+Proof.
+move=> xN yN; have n0 : (0 < n)%N by case: (n) xN => //; rewrite muln0.
+rewrite /V (ent_vanloan_xy Swf Rwf) ?shift_lt //.
+rewrite (ent_vanloan_xy Swf rewards_wf_behead) //.
+rewrite !shift_div // !modnDl.
+by rewrite /vl_blk !eqSS nth_behead.
+Qed.
+End VanLoanStep.
+
+Theorem mx_of_vanloan n k Sg Rs : wf n n Sg -> rewards_wf n k Rs ->
+  mx_of (vlsz n k) (vlsz n k) (vanloan OpsR Sg Rs k)
+  = vl (mx_of n n Sg) (rwd n Rs) k.
+Proof.
+move=> Swf; elim: k Rs => [|k IH] Rs Rwf.
+  apply/matrixP => i j; rewrite mx_ofE /= (ent_vanloan_xy Swf Rwf) ?mul1n //.
+  by rewrite !divn_small // !modn_small // mxE.
+have Rwf' := rewards_wf_behead Rwf.
+rewrite /= -[LHS]submxK; congr (block_mx _ _ _ _); apply/matrixP => i j.
+- by rewrite !mxE; apply: (van_ul Swf Rwf (ltn_ord i) (ltn_ord j)).
+- have jK : (j < k.+1 * n)%N by rewrite -vlszE.
+  by rewrite vltop_diag_ent !mxE; apply: (van_ur Swf Rwf (ltn_ord i) jK).
+- have iK : (i < k.+1 * n)%N by rewrite -vlszE.
+  by rewrite !mxE; apply: (van_dl Swf Rwf iK (ltn_ord j)).
+- rewrite -(@vl_ext _ _ (rwd n (behead Rs))); last first.
+    by move=> l _; rewrite /rwd nth_behead.
+  have iK : (i < k.+1 * n)%N by rewrite -vlszE.
+  have jK : (j < k.+1 * n)%N by rewrite -vlszE.
+  by rewrite -IH // !mxE; apply: (van_dr Swf Rwf iK jK).
+Qed.
+
+Lemma den_vanloan n k lam Sg Rs : wf n n Sg -> rewards_wf n k Rs ->
+  den (n := vlsz n k) (vanloan OpsR (mscale OpsR lam Sg) Rs k)
+      (vl (lam *: mx_of n n Sg) (rwd n Rs) k).
+Proof.
+move=> Swf Rwf; have Lwf := wf_mscale lam Swf; split; first exact: wf_vanloan.
+by rewrite mx_of_vanloan // mx_of_mscale.
+Qed.
+
+(* ------------------------------------------------------------------ *)
+(* The top-right block                                                 *)
+
+Lemma nth_map_drop c (A : seq (seq R)) i :
+  nth [::] [seq drop c row | row <- A] i = drop c (nth [::] A i).
+Proof. exact: (@nth_map_default _ _ [::]). Qed.
+
+Lemma vllast_mx_of r n k (A : seq (seq R)) :
+  vllast (k := k) (mx_of r (vlsz n k) A) = mx_of r n [seq drop (k * n) row | row <- A].
+Proof.
+elim: k A => [|k IH] A /=.
+  apply/matrixP => i j; rewrite !mxE nth_map_drop mul0n drop0 //.
+have -> : rsubmx (mx_of r (n + vlsz n k) A)
+          = mx_of r (vlsz n k) [seq drop n row | row <- A].
+  by apply/matrixP => i j; rewrite !mxE nth_map_drop nth_drop.
+rewrite IH -map_comp; congr (mx_of _ _ _); apply: eq_map => row /=.
+by rewrite drop_drop mulSn addnC.
+Qed.
+
+Lemma vlfirst_mx_of n k c (A : seq (seq R)) :
+  vlfirst (k := k) (mx_of (vlsz n k) c A) = mx_of n c A.
+Proof. by case: k => [|k] //=; apply/matrixP => i j; rewrite !mxE. Qed.
+
+Theorem vltr_mx_of n k (Qm : seq (seq R)) :
+  vltr (k := k) (mx_of (vlsz n k) (vlsz n k) Qm)
+  = mx_of n n (sub_block Qm 0 n (k * n) n).
+Proof.
+rewrite /vltr vlfirst_mx_of vllast_mx_of; apply: mx_of_eq => i j iN jN.
+by rewrite ent_sub_block // add0n /ent nth_map_drop nth_drop.
+Qed.
+
+Lemma opowE (a : R) k : opow OpsR a k = a ^+ k.
+Proof. by elim: k => [|k IH] //=; rewrite IH exprS. Qed.
+
+Definition mk_fun n k (lam : R) (alpha : seq R) (T : 'M[R]_(vlsz n k)) : R :=
+  IZR (fact_Z k) * lam ^+ k *
+  (rv_of n alpha *m vltr (k := k) T *m (const_mx 1 : 'cV[R]_n)) ord0 ord0.
+
+Lemma acc_out_den n k lam alpha Qm (T : 'M[R]_(vlsz n k)) : den Qm T ->
+  acc_out OpsR k n lam alpha Qm = mk_fun lam alpha T.
+Proof.
+move=> [Qwf <-]; rewrite /acc_out /mk_fun opowE.
+set X := dot _ _ _; set Y := (_ *m _) _ _.
+suff -> : X = Y by [].
+rewrite /X /Y vltr_mx_of.
+have Bwf : wf n n (sub_block Qm 0 n (k * n) n).
+  apply: wf_sub_block Qwf _ _; rewrite vlszE ?add0n ?mulSn ?leq_addr //.
+  by rewrite addnC.
+rewrite (@dot_mulmx_gen n); last first.
+  by rewrite size_mvec (wf_size Bwf) geq_minr.
+by rewrite (cv_of_mvec Bwf (size_ones n)) ones_cv mulmxA.
+Qed.
+
+(* ------------------------------------------------------------------ *)
+(* Regularisation for arbitrary order: conjugation by                  *)
+(* diag(c, c lam, ..., c lam^k)                                        *)
+
+Fixpoint vlpow n (lam c : R) k : 'M[R]_(vlsz n k) :=
+  match k return 'M[R]_(vlsz n k) with
+  | k'.+1 => block_mx c%:M 0 0 (vlpow n lam (c * lam) k')
+  | 0%N => c%:M
+  end.
+
+Ltac bsimp :=
+  rewrite ?(mulmx1, mul1mx, mulmx0, mul0mx, addr0, add0r, scaler0).
+
+Lemma vltop_scale n (Rw : 'M[R]_n) (a : R) k :
+  vltop (a *: Rw) k = a *: vltop Rw k.
+Proof. by case: k => [|k] //=; rewrite scale_row_mx scaler0. Qed.
+
+Lemma vltop_pow n (Rw : 'M[R]_n) lam c k :
+  vltop Rw k *m vlpow n lam c k = c *: vltop Rw k.
+Proof.
+case: k => [|k] /=; first by rewrite mul_mx_scalar.
+by rewrite mul_row_block; bsimp; rewrite mul_mx_scalar scale_row_mx scaler0.
+Qed.
+
+Lemma vl_pow_intertwine n (S : 'M[R]_n) (R' Rw : nat -> 'M[R]_n) lam c k :
+  (forall i, (i < k)%N -> lam *: R' i = Rw i) ->
+  vl S R' k *m vlpow n lam c k = vlpow n lam c k *m vl S Rw k.
+Proof.
+elim: k R' Rw c => [|k IH] R' Rw c H /=; first by rewrite scalar_mxC.
+rewrite !mulmx_block; bsimp; rewrite scalar_mxC.
+rewrite (IH (fun i => R' i.+1) (fun i => Rw i.+1)); last by move=> i ik; apply: H.
+by rewrite vltop_pow !mul_scalar_mx -(H 0%N) // vltop_scale scalerA.
+Qed.
+
+Lemma vllast_scale r n k (a : R) (M : 'M[R]_(r, vlsz n k)) :
+  vllast (k := k) (a *: M) = a *: vllast (k := k) M.
+Proof. by rewrite -!mul_scalar_mx vllast_mul. Qed.
+
+Lemma vllast_mul_pow r n lam c k (M : 'M[R]_(r, vlsz n k)) :
+  vllast (k := k) (M *m vlpow n lam c k) = (c * lam ^+ k) *: vllast (k := k) M.
+Proof.
+elim: k c M => [|k IH] c M /=; first by rewrite mul_mx_scalar expr0 mulr1.
+rewrite -{1}(hsubmxK M) mul_row_block row_mxKr; bsimp.
+by rewrite IH exprS mulrA.
+Qed.
+
+Lemma vltr_mul_pow n lam c k (M : 'M[R]_(vlsz n k)) :
+  vltr (k := k) (M *m vlpow n lam c k) = (c * lam ^+ k) *: vltr (k := k) M.
+Proof. by rewrite /vltr vlfirst_mul vllast_mul_pow. Qed.
+
+Lemma vlfirst_pow_mul n lam c k cc (M : 'M[R]_(vlsz n k, cc)) :
+  vlfirst (k := k) (vlpow n lam c k *m M) = c *: vlfirst (k := k) M.
+Proof.
+case: k M => [|k] M /=; first by rewrite mul_scalar_mx.
+by rewrite -{1}(vsubmxK M) mul_block_col col_mxKu; bsimp; rewrite mul_scalar_mx.
+Qed.
+
+Lemma vltr_pow_mul n lam c k (M : 'M[R]_(vlsz n k)) :
+  vltr (k := k) (vlpow n lam c k *m M) = c *: vltr (k := k) M.
+Proof. by rewrite /vltr vlfirst_pow_mul vllast_scale. Qed.
+
+(* the regularised step and the canonical step are conjugate *)
+Lemma step_pow_intertwine n (S : 'M[R]_n) (Rw : nat -> 'M[R]_n) k (lam t : R) :
+  lam <> 0 ->
+  mexp (Rdiv t lam *: vl (lam *: S) Rw k) *m vlpow n lam 1 k
+  = vlpow n lam 1 k *m mexp (t *: vl S Rw k).
+Proof.
+move=> lam0; apply: mexp_intertwine; rewrite !vl_scale.
+have E : Rdiv t lam * lam = t.
+  by rewrite /Rdiv -!RmultE Rmult_assoc Rinv_l // Rmult_1_r.
+rewrite scalerA E; apply: vl_pow_intertwine => i _.
+by rewrite scalerA mulrC E.
+Qed.
+
+(* ------------------------------------------------------------------ *)
+(* The model's accumulation of order k                                 *)
+
+Lemma mid_size n k : Nat.mul (Nat.add k 1) n = vlsz n k.
+Proof. by rewrite vlszE -[Nat.add k 1]/(k + 1)%N addn1. Qed.
+
+Definition mk_val n k (alpha : seq R) (T : 'M[R]_(vlsz n k)) : R :=
+  IZR (fact_Z k) *
+  (rv_of n alpha *m vltr (k := k) T *m (const_mx 1 : 'cV[R]_n)) ord0 ord0.
+
+Section MomentsK.
+Variable expm : seq (seq R) -> seq (seq R).
+Hypothesis expm_sound : forall n A, wf n n A ->
+  wf n n (expm A) /\ mx_of n n (expm A) = mexp (mx_of n n A).
+
+(* regularised generators / canonical generators *)
+Definition denVk n k (lam : R) (Rs : seq (seq R))
+    (Ss : list (Q * seq (seq R))) : list (Q * 'M[R]_(vlsz n k)) :=
+  [seq (x.1, vl (lam *: mx_of n n x.2) (rwd n Rs) k) | x <- Ss].
+
+Definition denCk n k (Rs : seq (seq R))
+    (Ss : list (Q * seq (seq R))) : list (Q * 'M[R]_(vlsz n k)) :=
+  [seq (x.1, vl (mx_of n n x.2) (rwd n Rs) k) | x <- Ss].
+
+Theorem accumulate_denote_loop n k Ss Slast Rs alpha lam ts :
+  all_wf n Ss -> wf n n Slast -> rewards_wf n k Rs ->
+  accumulate_raw OpsR expm k Ss Slast Rs alpha lam ts =
+  List.map (mk_fun lam alpha)
+    (loop_vectorised _ _ mulmx 1%:M (@stepV (vlsz n k) lam)
+       (denVk n k lam Rs Ss) (vl (lam *: mx_of n n Slast) (rwd n Rs) k) ts).
+Proof.
+move=> Swf Lwf Rwf; rewrite /accumulate_raw L_length (wf_size Lwf) mid_size.
+have H : List.Forall2 (@den (vlsz n k))
+    (loop_vectorised _ _ (mmul OpsR) (mid OpsR (vlsz n k))
+       (vl_step OpsR expm lam)
+       (List.map (fun eS => (eS.1, vanloan OpsR (mscale OpsR lam eS.2) Rs k)) Ss)
+       (vanloan OpsR (mscale OpsR lam Slast) Rs k) ts)
+    (loop_vectorised _ _ mulmx 1%:M (@stepV (vlsz n k) lam)
+       (denVk n k lam Rs Ss) (vl (lam *: mx_of n n Slast) (rwd n Rs) k) ts).
+  apply: (@loop_vectorised_rel _ _ _ _ _ _ _ _ _ _
+            (@den (vlsz n k)) (@den (vlsz n k))).
+  - by move=> *; apply: den_mul.
+  - exact: den_one.
+  - by move=> *; apply: (den_vl_step expm_sound).
+  - rewrite /denVk; elim: Swf => [|x Ss' xwf _ IH] /=; constructor => //.
+    by split=> //=; apply: den_vanloan.
+  - exact: den_vanloan.
+apply: map_Forall2 H _ => Qm T; exact: acc_out_den.
+Qed.
+
+(* regularisation is invisible: the model computes k! times the Van Loan
+   functional of the un-regularised generators, for every lam <> 0 *)
+Theorem accumulate_denote n k Ss Slast Rs alpha lam ts :
+  lam <> 0 -> all_wf n Ss -> wf n n Slast -> rewards_wf n k Rs ->
+  accumulate_raw OpsR expm k Ss Slast Rs alpha lam ts =
+  List.map (mk_val alpha)
+    (loopM (vlsz n k) (denCk n k Rs Ss) (vl (mx_of n n Slast) (rwd n Rs) k) ts).
+Proof.
+move=> lam0 Swf Lwf Rwf; rewrite (accumulate_denote_loop _ _ _ Swf Lwf Rwf).
+pose Dg := vlpow n lam 1 k.
+pose Rel (A B : 'M[R]_(vlsz n k)) := A *m Dg = Dg *m B.
+pose RelV (V V' : 'M[R]_(vlsz n k)) :=
+  exists S, V = vl (lam *: S) (rwd n Rs) k /\ V' = vl S (rwd n Rs) k.
+have Hrel : List.Forall2 Rel
+    (loop_vectorised _ _ mulmx 1%:M (@stepV (vlsz n k) lam)
+       (denVk n k lam Rs Ss) (vl (lam *: mx_of n n Slast) (rwd n Rs) k) ts)
+    (loopM (vlsz n k) (denCk n k Rs Ss) (vl (mx_of n n Slast) (rwd n Rs) k) ts).
+  apply: (@loop_vectorised_rel _ _ _ _ _ _ _ _ _ _ Rel RelV).
+  - move=> a a' b b' aa bb; rewrite /Rel -mulmxA bb mulmxA aa.
+    by rewrite mulmxA.
+  - by rewrite /Rel mul1mx mulmx1.
+  - move=> v v' dt [S [-> ->]]; rewrite /Rel /stepV /stepM.
+    exact: step_pow_intertwine.
+  - rewrite /denVk /denCk; elim: (Ss) => [|x Ss' IH] /=; constructor => //.
+    by split=> //=; exists (mx_of n n x.2).
+  - by exists (mx_of n n Slast).
+apply: map_Forall2 Hrel _ => TL TC /(congr1 (vltr (k := k))).
+rewrite vltr_mul_pow vltr_pow_mul !mul1r scale1r /mk_fun /mk_val => <-.
+by rewrite -scalemxAr -scalemxAl [in RHS]mxE !RmultE mulrA.
+Qed.
+
+Corollary accumulate_lam_irrelevant n k Ss Slast Rs alpha lam1 lam2 ts :
+  lam1 <> 0 -> lam2 <> 0 -> all_wf n Ss -> wf n n Slast -> rewards_wf n k Rs ->
+  accumulate_raw OpsR expm k Ss Slast Rs alpha lam1 ts =
+  accumulate_raw OpsR expm k Ss Slast Rs alpha lam2 ts.
+Proof. by move=> l1 l2 Swf Lwf Rwf; rewrite !(@accumulate_denote n). Qed.
+
+(* pointwise form, any order of the times *)
+Theorem accumulate_pointwise n k Ss Slast Rs alpha lam ts :
+  lam <> 0 -> all_wf n Ss -> wf n n Slast -> rewards_wf n k Rs ->
+  epochs_wf (seq (seq R)) 0%QQ Ss -> List.Forall (fun t => (0 <= t)%QQ) ts ->
+  accumulate_raw OpsR expm k Ss Slast Rs alpha lam ts =
+  List.map (fun t => mk_val alpha
+     (evalM (vlsz n k) (denCk n k Rs Ss) (vl (mx_of n n Slast) (rwd n Rs) k) t))
+     ts.
+Proof.
+move=> lam0 Swf Lwf Rwf Ewf tpos; rewrite (@accumulate_denote n) //.
+rewrite loopM_pointwise ?List.map_map //.
+by rewrite /denCk; elim: (Ss) (0%QQ) Ewf => [|[en S] Ss' IH] lo //= [H /IH].
+Qed.
+
+(* single epoch: k! times the functional [mk] of proofs/ExpLaws.v *)
+Corollary accumulate_is_mk n k Slast Rs alpha lam t :
+  lam <> 0 -> wf n n Slast -> rewards_wf n k Rs ->
+  accumulate_raw OpsR expm k [::] Slast Rs alpha lam [:: t] =
+  [:: IZR (fact_Z k) *
+      mk rexpm (rv_of n alpha) (mx_of n n Slast) (rwd n Rs) k (Q2R t) ord0 ord0].
+Proof.
+move=> lam0 Lwf Rwf; rewrite (@accumulate_denote n) //.
+have -> : loopM (vlsz n k) (denCk n k Rs [::])
+            (vl (mx_of n n Slast) (rwd n Rs) k) [:: t]
+        = [:: evalM (vlsz n k) [::] (vl (mx_of n n Slast) (rwd n Rs) k) t] by [].
+by rewrite evalM_single.
+Qed.
+
+(* lumping of the model's moments of order k (arbitrary epochs and times) *)
+Theorem accumulate_lumping m n k P SsL SlastL SsC SlastC RsL RsC alphaL lam ts :
+  wf m n P -> wf m m SlastL -> wf n n SlastC ->
+  List.Forall2 (lump_rel m n P) SsL SsC ->
+  mmul OpsR SlastL P = mmul OpsR P SlastC ->
+  (forall i, (i < k)%N ->
+     mmul OpsR (diagm OpsR (nth [::] RsL i)) P
+     = mmul OpsR P (diagm OpsR (nth [::] RsC i))) ->
+  mvec OpsR P (ones OpsR n) = ones OpsR m ->
+  rewards_wf m k RsL -> rewards_wf n k RsC -> size alphaL = m ->
+  accumulate_raw OpsR expm k SsL SlastL RsL alphaL lam ts
+  = accumulate_raw OpsR expm k SsC SlastC RsC (vmat OpsR alphaL P) lam ts.
+Proof.
+move=> Pwf LLwf LCwf Hss Hlast Hr P1 RLwf RCwf sa.
+have SLwf : all_wf m SsL by elim: Hss => [|x y ? ? [_ ? _ _] _ ?]; constructor.
+have SCwf : all_wf n SsC by elim: Hss => [|x y ? ? [_ _ ? _] _ ?]; constructor.
+rewrite (accumulate_denote_loop _ _ _ SLwf LLwf RLwf).
+rewrite (accumulate_denote_loop _ _ _ SCwf LCwf RCwf).
+pose PM := mx_of m n P; pose PP := vldiag PM k.
+pose Rel (A : 'M[R]_(vlsz m k)) (B : 'M[R]_(vlsz n k)) := A *m PP = PP *m B.
+have RP i : (i < k)%N -> rwd m RsL i *m PM = PM *m rwd n RsC i.
+  move=> ik; rewrite /rwd -(mx_of_diagm (RLwf i ik)) -(mx_of_diagm (RCwf i ik)).
+  by apply: mmul_intertwine (Hr i ik) => //; apply: wf_diagm; auto.
+have VLP SL SC : wf m m SL -> wf n n SC -> mmul OpsR SL P = mmul OpsR P SC ->
+    vl (lam *: mx_of m m SL) (rwd m RsL) k *m PP
+    = PP *m vl (lam *: mx_of n n SC) (rwd n RsC) k.
+  move=> Lwf Cwf /(mmul_intertwine Pwf Lwf Cwf) SP.
+  by apply: vl_intertwine => //; apply: scale_intertwine.
+have Hrel : List.Forall2 Rel
+    (loop_vectorised _ _ mulmx 1%:M (@stepV (vlsz m k) lam)
+       (denVk m k lam RsL SsL) (vl (lam *: mx_of m m SlastL) (rwd m RsL) k) ts)
+    (loop_vectorised _ _ mulmx 1%:M (@stepV (vlsz n k) lam)
+       (denVk n k lam RsC SsC) (vl (lam *: mx_of n n SlastC) (rwd n RsC) k) ts).
+  apply: (@loop_vectorised_rel _ _ _ _ _ _ _ _ _ _ Rel Rel).
+  - move=> a a' b b' aa bb; rewrite /Rel -mulmxA bb mulmxA aa.
+    by rewrite mulmxA.
+  - by rewrite /Rel mul1mx mulmx1.
+  - move=> v v' dt vv; rewrite /Rel /stepV.
+    by apply: mexp_intertwine; apply: scale_intertwine.
+  - elim: Hss => [|x y xs ys [xy xwf ywf H] _ IH] /=; constructor => //.
+    by split=> //=; apply: VLP.
+  - exact: VLP.
+apply: map_Forall2 Hrel _ => TL TC TT; rewrite /mk_fun; congr (_ * _).
+have <- : PM *m const_mx 1 = (const_mx 1 : 'cV[R]_m).
+  by rewrite -(ones_cv n) -(cv_of_mvec Pwf (size_ones n)) P1 ones_cv.
+rewrite (rv_of_vmat Pwf sa) -/PM.
+have URP : vltr (k := k) TL *m PM = PM *m vltr (k := k) TC.
+  by rewrite -vltr_mul_diag -/PP TT vltr_diag_mul.
+by rewrite mulmxA -(mulmxA _ (vltr TL)) URP !mulmxA.
+Qed.
+End MomentsK.
+
+(* hypothesis-free instances with the ideal backend of CdfFacts.v *)
 Definition accumulate1_is_m1_ideal := accumulate1_is_m1 expm_ideal_sound.
+Definition accumulate_is_mk_ideal := accumulate_is_mk expm_ideal_sound.
+Definition accumulate_lumping_ideal := accumulate_lumping expm_ideal_sound.
 
 Print Assumptions accumulate1_denote_loop.
 Print Assumptions accumulate1_denote_single.
 Print Assumptions accumulate1_is_m1.
 Print Assumptions accumulate1_lam_irrelevant.
 Print Assumptions accumulate1_lumping.
+Print Assumptions mx_of_vanloan.
+Print Assumptions vltr_mx_of.
+Print Assumptions accumulate_denote_loop.
+Print Assumptions accumulate_denote.
+Print Assumptions accumulate_lam_irrelevant.
+Print Assumptions accumulate_pointwise.
+Print Assumptions accumulate_is_mk.
+Print Assumptions accumulate_lumping.
